@@ -460,6 +460,11 @@ class KInterp:
             if isinstance(sl, ast.Slice) and sl.lower is None and sl.upper is None:
                 continue
             sv = self.eval(sl, st)
+            if isinstance(sv, MaskedView) and isinstance(sv.base, BExpr):
+                sv = sv.base        # a mask read through another mask: still implies the base mask
+            if isinstance(sv, MaskedView) and isinstance(sv.base, GExpr):
+                sv = sv.base.map1(lambda p_: p_) if False else GExpr([(g_, apply_fn("masked", [p_, Poly.sym("mask", repr(sv.mask.key()))]))
+                                                                        for g_, p_ in sv.base.cases])
             if isinstance(sv, BExpr):
                 sel = sel & sv
             elif isinstance(sv, GExpr) and sv.plain() is not None:
